@@ -348,8 +348,22 @@ func (t *tr) call(x *ast.CallExpr) (vals []string, targets []string) {
 		// a pure function of its operands: used in place
 		return []string{"(" + callTerm + ")"}, []string{""}
 	}
-	res := t.fresh("r")
 	single := len(fi.resMut) == 1
+	if single {
+		// one changed operand and nothing else: `x.M(a, b)` is `let x := M x a b`
+		tgt := ops[fi.resMut[0]].tgt
+		if _, ro := pkgVars[tgt]; ro {
+			die("%s: %s would write the package-level element %s", pos(x), name, tgt)
+		}
+		t.emit("let %s := %s", tgt, callTerm)
+		t.noteWrite(tgt, "*")
+		for range fi.results {
+			vals = append(vals, tgt)
+			targets = append(targets, tgt)
+		}
+		return
+	}
+	res := t.fresh("r")
 	t.emit("let %s := %s", res, callTerm)
 	comp := func(i int) string {
 		if single {
